@@ -289,7 +289,7 @@ def run_probes(unit, workdir, args):
     if isinstance(p, vx.Fn) and p.probe:
       q = copy.copy(p)
       q.ensures = [c if isinstance(c, str) else c[1] for c in p.ensures] + [("VACUITY_PROBE", "false")]
-      base = (re.sub(r"^impl\s+", "", p.emit_impl).split("<")[0].strip() + "::") if p.emit_impl else ""
+      base = (re.sub(r"^impl(<[^>]*>)?\s+", "", p.emit_impl).split("<")[0].strip() + "::") if p.emit_impl else ""
       q.rename = base + (p.rename.split("::")[-1] if p.rename else p.name) + "__vprobe"
       q.probe = False
       q.loops = {k: {kk: ([c if isinstance(c, str) else c[1] for c in vv] if isinstance(vv, list) else vv) for kk, vv in v.items()} for k, v in p.loops.items()}
